@@ -167,3 +167,30 @@ def load_corpus():
                 c['corpus'] = f
                 out.append(c)
     return out
+
+
+def structural(ctx, tag, hints_and_modes):
+    """structural correspondence: indices of the (hint, is_random) pairs whose real generated code is not
+    the term the model generator produces, plus the parser errors"""
+    import subprocess
+    from harness.common import PY, VERIF, impl_env
+    payload = {'cases': [{'hint': h, 'is_random': r} for h, r in hints_and_modes]}
+    p = subprocess.run([PY, os.path.join(VERIF, 'harness', 'translate', 'parse_generated.py')],
+                       input=json.dumps(payload), capture_output=True, text=True, env=impl_env(), timeout=900)
+    if p.returncode != 0:
+        raise CoqFailure('parse_generated.py', p.stderr[-3000:])
+    terms = json.loads([l for l in p.stdout.splitlines() if l.startswith('[')][-1])
+    errors = [(i, t['error']) for i, t in enumerate(terms) if isinstance(t, dict)]
+    todo = [i for i, t in enumerate(terms) if not isinstance(t, dict)]
+    bad = []
+    for lo in range(0, len(todo), 300):
+        idx = todo[lo:lo + 300]
+        rows = ['(%s, %s, %s)' % ('true' if hints_and_modes[i][1] else 'false', IR.coq_hint(hints_and_modes[i][0]),
+                                  terms[i]) for i in idx]
+        text = HEADER + 'Definition rows : list (bool * hint * expr) := %s.\n' % coq_list(['\n ' + r for r in rows]) + \
+            'Eval vm_compute in (struct_failing rows).\n'
+        path = os.path.join(ctx.workdir, f'struct_{tag}_{lo}.v')
+        with open(path, 'w') as f:
+            f.write(text)
+        bad += [idx[j] for j in parse_nat_list(coqc_file(path))]
+    return bad, errors, terms
